@@ -78,11 +78,12 @@ func TestC07(t *testing.T) {
 	// the user's `canary fail` lands in the middle of a sync of the canary replica set: the mark must survive it
 	s3mid := corpusS3(nodes, "1", "auto", 1, &w.Alpha{MidCmds: []string{"canary-fail"}})
 	s3mid.name = "S4-canary-fail-overtakes-a-sync"
-	// a pod template whose metadata carries a namespace and a generateName: the rollback must restore exactly it
+	// a pod template whose metadata carries a namespace and a generateName, and a canary template whose metadata differs
+	// (no such fields, an extra label): the rollback must restore exactly the former, metadata included
 	s3meta := corpusS3(nodes, "1", "auto", 1, &w.Alpha{Kubectl: []string{"canary-fail"}})
 	s3meta.name = "S4-canary-template-with-namespace-metadata"
-	s3meta.tpl0, s3meta.tpls = "A+metans", []string{"A+metans", "B+metans"}
-	s3meta.first = []w.Event{evb("setTemplate", edsKey, "B+metans")}
+	s3meta.tpl0, s3meta.tpls = "A+metans", []string{"A+metans", "B+label:rev=2"}
+	s3meta.first = []w.Event{evb("setTemplate", edsKey, "B+label:rev=2")}
 	type fstate struct {
 		sc *w.Scenario
 		s  *w.State
